@@ -40,7 +40,9 @@ RULE = (
     "start, negative start with positive or omitted stop, bounds omitted) and by biotype; for each returned feature get_slice, map coordinates and parent[feature]. "
     "Alignment level (old Alignment; there is no new-type Alignment in this tree): 1-3 (thorough 1-5) gapped rows, "
     "sequence features on rows introduced by add_feature(seqid=) / loaded db / GFF, alignment features "
-    "(on_alignment=True, either strand); history over column slice / rc / copy / deepcopy(sliced|unsliced); after "
+    "(on_alignment=True, either strand); history over column slice / rc / copy / deepcopy(sliced|unsliced) / "
+    "get_projected_feature (what it writes into the shared db must not change any later query, on the view, its rows "
+    "or the root) / slice-by-feature (single contiguous span) followed by queries on the result; after "
     "every step get_features(on_alignment=False|True|None), slices compared as row dicts, aln[feature]; at the end "
     "get_projected_feature onto a chosen row, get_seq(row).get_features and degap().get_features. Collection level "
     "(old/new SequenceCollection): built from strings or from annotated sequence views, add_feature/get_features "
@@ -95,7 +97,7 @@ def view_apply(view, step, feats=None):
         return (lo + a, lo + b, rev) if not rev else (hi - b, hi - a, rev)
     if op == "rc":
         return (lo, hi, not rev)
-    if op in ("copy", "deepcopy", "degap"):
+    if op in ("copy", "deepcopy", "degap", "project"):
         return view
     if op == "fslice":
         spans, strand = feats[step[1]]
@@ -494,6 +496,29 @@ def gen_aln_scn(rng, intro, deep=False):
     for f in seqfeats + alnfeats:
         if rng.random() < 0.6:
             project.append([f["name"], rng.choice(names)])
+    # some projections happen in the middle of the history: what they write into the shared db must not change
+    # what any later query returns
+    for pr in list(project):
+        if rng.random() < 0.6:
+            project.remove(pr)
+            hist.insert(rng.randint(0, len(hist)), ["project", pr[0], pr[1]])
+    # slice-by-feature (single contiguous span, fully inside the final view), then maybe one more step
+    if rng.random() < 0.6:
+        v = (0, A, False)
+        cf = aln_colfeats(rows, seqfeats, alnfeats)
+        for st in hist:
+            v = view_apply(v, st, cf)
+        elig = [
+            nm
+            for nm, (sp, _) in cf.items()
+            if len(sp) == 1 and v[0] <= sp[0][0] and sp[0][1] <= v[1] and (nm.startswith("q") or (v[0], v[1]) == (0, A))
+        ]
+        if elig:
+            st = ["fslice", rng.choice(elig)]
+            hist.append(st)
+            v = view_apply(v, st, cf)
+            if v[1] - v[0] >= 2 and rng.random() < 0.5:
+                hist.extend(gen_history(rng, v, 1, ("slice", "rc"))[0])
     return {
         "level": "aln",
         "rows": rows,
@@ -504,6 +529,21 @@ def gen_aln_scn(rng, intro, deep=False):
         "history": hist,
         "project": project,
     }
+
+
+def aln_colfeats(rows, seqfeats, alnfeats):
+    """feature name -> (spans in alignment columns, strand); a sequence feature is listed when its residues occupy
+    one contiguous run of columns"""
+    out = {}
+    for f in alnfeats:
+        out[f["name"]] = ([tuple(s) for s in f["spans"]], f["strand"])
+    for f in seqfeats:
+        cols = cols_of(rows[f["row"]], [tuple(s) for s in f["spans"]])
+        if cols and cols == list(range(cols[0], cols[-1] + 1)):
+            out[f["name"]] = ([(cols[0], cols[-1] + 1)], f["strand"])
+        else:
+            out[f["name"]] = ([(-2, -1), (-1, 0)], f["strand"])  # not contiguous: never eligible
+    return out
 
 
 def gen_coll_scn(rng, impl):
@@ -1177,6 +1217,14 @@ def aln_step(obj, step):
         return obj.copy()
     if op == "deepcopy":
         return obj.deepcopy(sliced=bool(step[1]))
+    if op == "fslice":
+        if step[1].startswith("q"):
+            fs = [g for g in obj.get_features(on_alignment=False, allow_partial=True) if g.name == step[1]]
+        else:
+            fs = [g for g in obj.get_features(on_alignment=True, allow_partial=True) if g.name == step[1]]
+        if not fs:
+            raise FeatureNotReturned(step[1])
+        return obj[fs[0]]
     raise ValueError(op)
 
 
@@ -1270,7 +1318,7 @@ def row_window(row, lo, hi):
     return sum(1 for c in cols if c < lo), sum(1 for c in cols if c < hi)
 
 
-def observe_aln(ctx, obj, rows, view, seqfeats, alnfeats, lenient_empty=False):
+def observe_aln(ctx, obj, rows, view, seqfeats, alnfeats, lenient_empty=False, check_default=True):
     res = ctx.res
     lo, hi, rev = view
     A = len(next(iter(rows.values())))
@@ -1359,6 +1407,7 @@ def observe_aln(ctx, obj, rows, view, seqfeats, alnfeats, lenient_empty=False):
                 return
             if "-" in rows[f["row"]]:
                 res.count("aln:seqfeat-through-gapped-row")
+    for ap in (True, False):
         # ---- alignment features
         if not alnfeats:
             continue
@@ -1416,6 +1465,8 @@ def observe_aln(ctx, obj, rows, view, seqfeats, alnfeats, lenient_empty=False):
             if ctx.failed:
                 return
     # ---- default query = both kinds
+    if not check_default:
+        return  # G: get_projected_feature documents that it adds a record to the db; what kind is not specified
     res.evals += 1
     try:
         both = [f.name for f in obj.get_features(allow_partial=True)]
@@ -1491,17 +1542,51 @@ def run_aln_scn(res, scn):
         if ctx.failed:
             return
         lenient = False
+        projected = False
+        colfeats = aln_colfeats(rows, scn["seqfeats"], scn["alnfeats"])
+        byname = {f["name"]: f for f in scn["seqfeats"] + scn["alnfeats"]}
         for i, st in enumerate(scn["history"]):
             ctx.depth = i + 1
             ctx.op = aln_opname(st)
             res.count("aln-op:" + ctx.op)
+            if st[0] == "project":
+                if lenient:
+                    continue
+                ok = do_project(ctx, cur, rows, view, byname[st[1]], st[2])
+                if ctx.failed:
+                    return
+                if ok:
+                    projected = True
+                    res.count("aln:projection-inside-history")
+                    # nothing a projection writes may change what later queries return, on any object sharing the db
+                    observe_aln(ctx, cur, rows, view, scn["seqfeats"], scn["alnfeats"], lenient_empty=lenient, check_default=False)
+                    if ctx.failed:
+                        return
+                    observe_seq_rows(ctx, cur, rows, scn["seqfeats"], view)
+                    if ctx.failed:
+                        return
+                    if cur is not aln:
+                        observe_seq_rows(ctx, aln, rows, scn["seqfeats"], (0, A, False))
+                        if ctx.failed:
+                            return
+                continue
+            if st[0] == "fslice":
+                sp = colfeats[st[1]][0]
+                unsliced = (view[0], view[1]) == (0, A)
+                if len(sp) != 1 or sp[0][0] < view[0] or sp[0][1] > view[1] or lenient or not (st[1] in {f["name"] for f in scn["seqfeats"]} or unsliced):
+                    res.count("aln-fslice-not-applicable")
+                    break
             try:
                 nxt = aln_step(cur, st)
+            except FeatureNotReturned:
+                res.evals += 1
+                ctx.witness(f"C04/aln-missing-feature/before-{ctx.op}", feature=st[1], view=view, query="by-name")
+                return
             except Exception as e:  # noqa: BLE001
                 res.evals += 1
                 ctx.witness(exc_mechanism(f"C04/aln-history-{ctx.op}", e), error=repr(e)[:300], view=view)
                 return
-            nview = view_apply(view, st)
+            nview = view_apply(view, st, colfeats)
             expd = rows_at(rows, list(range(nview[0], nview[1])), nview[2])
             res.evals += 1
             try:
@@ -1515,51 +1600,32 @@ def run_aln_scn(res, scn):
             cur, view = nxt, nview
             if ctx.op == "deepcopy-sliced":
                 lenient = True
-            observe_aln(ctx, cur, rows, view, scn["seqfeats"], scn["alnfeats"], lenient_empty=lenient)
+            observe_aln(ctx, cur, rows, view, scn["seqfeats"], scn["alnfeats"], lenient_empty=lenient, check_default=not projected)
             if ctx.failed:
                 return
+            if st[0] == "fslice":
+                res.count("aln:slice-by-feature-then-query")
+                observe_seq_rows(ctx, cur, rows, scn["seqfeats"], view)
+                if ctx.failed:
+                    return
         if lenient:
             return  # annotations may legitimately be gone; the per-row entry points below would only repeat that
         # ---- end of history: projection to rows
-        lo, hi, rev = view
-        ctx.op = ctx.op + "+project"
-        byname = {f["name"]: f for f in scn["seqfeats"] + scn["alnfeats"]}
+        base = ctx.op
+        ctx.op = base + "+project"
         for fname, target in scn["project"]:
-            f = byname[fname]
-            is_aln = "row" not in f
-            try:
-                if is_aln:
-                    cands = [g for g in cur.get_features(on_alignment=True, allow_partial=True) if g.name == fname]
-                else:
-                    cands = [g for g in cur.get_features(seqid=f["row"], on_alignment=False, allow_partial=True) if g.name == fname]
-            except Exception:  # noqa: BLE001
-                continue
-            if not cands:
-                continue
-            spans = [tuple(s) for s in f["spans"]]
-            cols = [c for a, b in spans for c in range(a, b)] if is_aln else cols_of(rows[f["row"]], spans)
-            kept = [c for c in cols if lo <= c < hi]
-            if not kept:
-                continue  # G: a feature with no residue in the view need not be returned, so nothing to project
-            t = "".join(rows[target][c] for c in kept).replace("-", "")
-            exp = rc(t) if f["strand"] == "-" else t
-            res.evals += 1
-            res.count("aln:projected-feature-decisions")
-            kind = "alnfeat" if is_aln else "seqfeat"
-            try:
-                pf = cur.get_projected_feature(seqid=target, feature=cands[0])
-                g = str(pf.get_slice())
-            except Exception as e:  # noqa: BLE001
-                slo, shi = row_window(rows[target], lo, hi)
-                cls = "target-row-has-no-residue-in-view" if slo == shi else ("no-target-residue-under-feature" if not t else "target-residues-under-feature")
-                ctx.witness(exc_mechanism(f"C04/aln-projected-feature/{kind}/{cls}", e), error=repr(e)[:300], feature=f, target=target, view=view, expected=exp)
+            do_project(ctx, cur, rows, view, byname[fname], target)
+            if ctx.failed:
                 return
-            res.sig("aln", "project", kind, f["strand"], len(spans), rev, "gap-in-target" if "-" in "".join(rows[target][c] for c in kept) else "no-gap", target == f.get("row"))
-            if g != exp:
-                ctx.witness(f"C04/aln-projected-feature/{kind}/after-{ctx.op}", feature=f, target=target, view=view, got=g, expected=exp, map=repr(pf.map))
+        ctx.op = base
+        observe_seq_rows(ctx, cur, rows, scn["seqfeats"], view)
+        if ctx.failed:
+            return
+        if cur is not aln:
+            observe_seq_rows(ctx, aln, rows, scn["seqfeats"], (0, A, False))
+            if ctx.failed:
                 return
-        # the projection above writes extra records into the shared db (documented); use a fresh alignment for the row checks
-        observe_rows(ctx, rows, scn, view)
+        observe_degap_rows(ctx, cur, rows, scn["seqfeats"], view)
         res.sample({k: scn[k] for k in ("rows", "intro", "seqfeats", "alnfeats", "history")})
     finally:
         if tmp:
@@ -1569,52 +1635,92 @@ def run_aln_scn(res, scn):
                 pass
 
 
-def observe_rows(ctx, rows, scn, view):
-    """get_seq(row) and degap() of the final view: sequence-level queries on what the alignment hands out"""
-    from cogent3 import make_aligned_seqs
-
+def do_project(ctx, cur, rows, view, f, target):
+    """get_projected_feature of feature f (as the view returns it) onto row `target`; True when a projection was made"""
     res = ctx.res
     lo, hi, rev = view
-    if not scn["seqfeats"]:
-        return
+    fname = f["name"]
+    is_aln = "row" not in f
     try:
-        aln = make_aligned_seqs(dict(rows), moltype="dna", array_align=False)
-        for f in scn["seqfeats"]:
-            aln.add_feature(seqid=f["row"], biotype=f["biotype"], name=f["name"], spans=[tuple(s) for s in f["spans"]], strand=f["strand"])
-        cur = aln
-        for st in scn["history"]:
-            cur = aln_step(cur, st)
+        if is_aln:
+            cands = [g for g in cur.get_features(on_alignment=True, allow_partial=True) if g.name == fname]
+        else:
+            cands = [g for g in cur.get_features(seqid=f["row"], on_alignment=False, allow_partial=True) if g.name == fname]
     except Exception:  # noqa: BLE001
-        return  # already reported by the main pass if it concerns the property
-    base_op = ctx.op.split("+")[0]
-    for r, row in rows.items():
-        U = row.replace("-", "")
-        slo, shi = row_window(row, lo, hi)
-        if slo == shi:
-            continue  # an empty sequence has no window to query
-        model = {f["name"]: ([tuple(s) for s in f["spans"]], f["strand"]) for f in scn["seqfeats"] if f["row"] == r}
-        if not model:
-            continue
-        # get_seq
-        ctx.op = base_op + "+get_seq"
-        res.evals += 1
-        try:
-            s = cur.get_seq(r)
-            sv = str(s)
-        except Exception as e:  # noqa: BLE001
-            ctx.witness(exc_mechanism("C04/aln-get_seq", e), error=repr(e)[:300], row=r, view=view)
-            return
-        expv = rc(U[slo:shi]) if rev else U[slo:shi]
-        if sv != expv:
-            ctx.witness("C04/aln-get_seq/view-string", got=sv, expected=expv, row=r, view=view)
-            return
-        res.count("aln:get_seq-queries")
-        for ap in (True, False):
-            for win in [None] + mixed_windows(shi - slo):
-                query_seq(ctx, s, U, (slo, shi, rev), model, None, win, ap, level="alnrow")
-                if ctx.failed:
-                    return
-    # degap -> collection
+        return False  # reported by the observation of this view
+    if not cands:
+        return False
+    spans = [tuple(s) for s in f["spans"]]
+    cols = [c for a, b in spans for c in range(a, b)] if is_aln else cols_of(rows[f["row"]], spans)
+    kept = [c for c in cols if lo <= c < hi]
+    if not kept:
+        return False  # G: a feature with no residue in the view need not be returned, so nothing to project
+    if is_aln and (lo, hi) != (0, len(rows[target])):
+        return False  # alignment features on a sliced view are misplaced already (known finding): nothing to learn
+    t = "".join(rows[target][c] for c in kept).replace("-", "")
+    exp = rc(t) if f["strand"] == "-" else t
+    res.evals += 1
+    res.count("aln:projected-feature-decisions")
+    kind = "alnfeat" if is_aln else "seqfeat"
+    try:
+        pf = cur.get_projected_feature(seqid=target, feature=cands[0])
+        g = str(pf.get_slice())
+    except Exception as e:  # noqa: BLE001
+        slo, shi = row_window(rows[target], lo, hi)
+        cls = "target-row-has-no-residue-in-view" if slo == shi else ("no-target-residue-under-feature" if not t else "target-residues-under-feature")
+        ctx.witness(exc_mechanism(f"C04/aln-projected-feature/{kind}/{cls}", e), error=repr(e)[:300], feature=f, target=target, view=view, expected=exp)
+        return False
+    res.sig("aln", "project", kind, f["strand"], len(spans), rev, "gap-in-target" if "-" in "".join(rows[target][c] for c in kept) else "no-gap", target == f.get("row"))
+    if g != exp:
+        ctx.witness(f"C04/aln-projected-feature/{kind}/after-{ctx.op}", feature=f, target=target, view=view, got=g, expected=exp, map=repr(pf.map))
+        return False
+    return True
+
+
+def observe_seq_rows(ctx, cur, rows, seqfeats, view):
+    """get_seq(row) of the view: sequence-level queries on what the alignment hands out (same db as the alignment)"""
+    res = ctx.res
+    lo, hi, rev = view
+    if not seqfeats:
+        return
+    base_op = ctx.op
+    try:
+        for r, row in rows.items():
+            U = row.replace("-", "")
+            slo, shi = row_window(row, lo, hi)
+            if slo == shi:
+                continue  # an empty sequence has no window to query
+            model = {f["name"]: ([tuple(s) for s in f["spans"]], f["strand"]) for f in seqfeats if f["row"] == r}
+            ctx.op = base_op + "+get_seq"
+            res.evals += 1
+            try:
+                s = cur.get_seq(r)
+                sv = str(s)
+            except Exception as e:  # noqa: BLE001
+                ctx.witness(exc_mechanism("C04/aln-get_seq", e), error=repr(e)[:300], row=r, view=view)
+                return
+            expv = rc(U[slo:shi]) if rev else U[slo:shi]
+            if sv != expv:
+                ctx.witness("C04/aln-get_seq/view-string", got=sv, expected=expv, row=r, view=view)
+                return
+            res.count("aln:get_seq-queries")
+            # also a row without features of its own is queried: nothing may be reported for it
+            for ap in (True, False):
+                for win in [None] + mixed_windows(shi - slo):
+                    query_seq(ctx, s, U, (slo, shi, rev), model, None, win, ap, level="alnrow")
+                    if ctx.failed:
+                        return
+    finally:
+        ctx.op = base_op
+
+
+def observe_degap_rows(ctx, cur, rows, seqfeats, view):
+    """degap() of the final view: the collection it returns is asked for the features of every row"""
+    res = ctx.res
+    lo, hi, rev = view
+    if not seqfeats:
+        return
+    base_op = ctx.op
     ctx.op = base_op + "+degap"
     res.evals += 1
     try:
@@ -1628,7 +1734,7 @@ def observe_rows(ctx, rows, scn, view):
         slo, shi = row_window(row, lo, hi)
         if slo == shi:
             continue
-        model = {f["name"]: ([tuple(s) for s in f["spans"]], f["strand"]) for f in scn["seqfeats"] if f["row"] == r}
+        model = {f["name"]: ([tuple(s) for s in f["spans"]], f["strand"]) for f in seqfeats if f["row"] == r}
         if not model:
             continue
         for ap in (True, False):
@@ -1929,6 +2035,8 @@ REQUIRED = [
     "aln:seqfeat-through-gapped-row",
     "aln:getitem-feature",
     "aln:projected-feature-decisions",
+    "aln:projection-inside-history",
+    "aln:slice-by-feature-then-query",
     "aln-op:slice",
     "aln-op:rc",
     "coll:query-old",
